@@ -433,9 +433,113 @@ writer.flush()?;
                 && body_wire_ok(old(self).sp_body().kind_spec(), old(self).sp_body().octets(), bw));
         }
 //@@ contract
+        requires
+            host_is_for(&old(self).sp_headers(), if url_scheme_is(url, "http") && proxy is Some { proxy.unwrap() } else { url }), // id: host_field_matches_the_url_being_requested [C08,C10]
         ensures
             final(self).sp_headers() == old(self).sp_headers(), final(self).sp_method() == old(self).sp_method(), // id: request_not_modified_by_sending [C10]
             final(self).sp_url() == old(self).sp_url(), final(self).sp_settings() == old(self).sp_settings(),
             final(self).sp_body().octets() == old(self).sp_body().octets(), final(self).sp_body().kind_spec() == old(self).sp_body().kind_spec(), // id: body_replayable_unchanged [C10]
+//@@ end
+}
+
+impl<B> PreparedRequest<B> {
+//@@ fn src/request/mod.rs impl<B>~PreparedRequest<B> base_redirect_url props=C09
+//@@ rw R1
+Url::parse(location)
+//@@ =>
+vp_url_parse_abs(location)
+//@@ rw R5
+|_|
+//@@ =>
+|_vp0|
+//@@ contract
+        ensures
+            (res matches Ok(u) ==> redirect_target(previous_url, location@) == Some(u)), // id: location_resolved_against_the_url_that_produced_it [C09]
+            (res is Err ==> redirect_target(previous_url, location@) is None), // id: unusable_location_is_an_error [C09]
+//@@ end
+
+//@@ fn src/request/mod.rs impl<B>~PreparedRequest<B> set_compression props=C16,C06
+//@@ rw R1 #*
+ACCEPT_ENCODING
+//@@ =>
+vp_hn_accept_encoding()
+//@@ splice before
+if self.base_settings.allow_compression {
+//@@ with
+        broadcast use group_into_hv;
+        broadcast use filt::lemma_insert_effect;
+//@@ contract
+        ensures
+            res is Ok && old(self).sp_settings().allow_compression ==> field_vals(&final(self).sp_headers(), ae_name()).len() == 1 // id: accept_encoding_announced_when_compression_allowed [C16,C06]
+                && hv_bytes(&field_vals(&final(self).sp_headers(), ae_name())[0]) == str_bytes("gzip, deflate"@),
+            res is Ok && !old(self).sp_settings().allow_compression ==> final(self).sp_headers() == old(self).sp_headers(), // id: not_announced_when_compression_disallowed [C16,C06]
+            final(self).sp_settings() == old(self).sp_settings(), final(self).sp_method() == old(self).sp_method(), final(self).sp_url() == old(self).sp_url(),
+//@@ end
+}
+
+impl<B: Body> PreparedRequest<B> {
+//@@ fn src/request/mod.rs impl<B:~Body>~PreparedRequest<B> send props=C09,C10,C08,C05
+//@@ closure
+|timeout|
+//@@ =>
+|timeout: Duration| -> (r: Instant)
+//@@ rw R1
+Instant::now() + timeout
+//@@ =>
+vp_deadline(timeout)
+//@@ statusmatch
+//@@ rw R1
+resp
+                .headers()
+                .get(http::header::LOCATION)
+//@@ =>
+vp_get_location(resp.headers())
+//@@ rw R1
+self.base_redirect_url(&location, &url)
+//@@ =>
+self.base_redirect_url(vp_cow_str(&location), &url)
+//@@ rw R1
+url.scheme()
+//@@ =>
+vp_scheme_str(&url)
+//@@ splice after
+loop
+//@@ with
+            invariant
+                redirections <= self.base_settings.max_redirections, // id: at_most_max_redirections_followed [C09]
+                self.sp_settings() == old(self).sp_settings(), self.sp_method() == old(self).sp_method(), // id: method_and_settings_identical_on_every_hop [C10]
+                self.sp_body().octets() == old(self).sp_body().octets(), self.sp_body().kind_spec() == old(self).sp_body().kind_spec(), // id: body_identical_on_every_hop [C10]
+                without(hm_view(&self.sp_headers()), host_name()) == without(hm_view(&old(self).sp_headers()), host_name()), // id: callers_header_fields_preserved_on_every_hop [C10]
+                old(self).sp_settings().max_redirections < u32::MAX,
+            decreases self.base_settings.max_redirections - redirections, // id: each_followed_redirect_uses_up_budget [C09,C05]
+//@@ splice after_stmt
+let proxy =
+//@@ with
+            let ghost hop = url;
+            proof { assert(proxy == self.base_settings.proxy_settings.proxy_spec(&hop)); } // id: proxy_choice_reevaluated_for_this_hop [C10,C08]
+//@@ splice after_stmt
+let mut stream = BaseStream::connect(
+//@@ with
+            proof {
+                assert(dialled(&stream) == (hop, proxy)); // id: connected_for_this_hops_url_and_proxy [C08,C10]
+                assert(host_is_for(&self.sp_headers(), if url_scheme_is(&hop, "http") && proxy is Some { &proxy.unwrap() } else { &hop })); // id: host_field_belongs_to_this_hop [C08,C10]
+            }
+//@@ splice before
+redirections += 1;
+//@@ with
+            proof {
+                assert(self.base_settings.follow_redirects && is_followed_status(status_u16(resp.sp_status()))); // id: only_followed_when_enabled_and_a_followed_status [C09]
+                assert(resp.sp_url() == hop); // id: response_reports_this_hops_url [C09]
+            }
+//@@ splice after_stmt
+url = self.base_redirect_url(
+//@@ with
+            proof { assert(Some(url) == redirect_target(&hop, utf8_lossy(hv_bytes(&field_vals(&resp.sp_headers(), location_name())[0])))); } // id: next_hop_is_location_resolved_against_this_hop [C09]
+//@@ contract
+        requires old(self).sp_settings().max_redirections < u32::MAX, // id: redirect_counter_cannot_overflow [C05]
+        ensures
+            res matches Ok(resp) ==> (!old(self).sp_settings().follow_redirects || !is_followed_status(status_u16(resp.sp_status()))), // id: returned_response_is_not_a_followable_redirect [C09]
+            final(self).sp_settings() == old(self).sp_settings(), final(self).sp_method() == old(self).sp_method(), // id: request_unchanged_by_sending [C10,C16]
+            without(hm_view(&final(self).sp_headers()), host_name()) == without(hm_view(&old(self).sp_headers()), host_name()),
 //@@ end
 }
